@@ -38,6 +38,7 @@ type SeqScenario struct {
 	SchedSeed uint64   `json:"sched_seed"`
 	HashMode  string   `json:"hash_mode"`
 	Replay    []uint16 `json:"replay,omitempty"`
+	ReplayRLE string   `json:"replay_rle,omitempty"`
 	JanitorOnly bool   `json:"janitor_only,omitempty"` // C15a: the program only advances the clock and polls Count
 }
 
